@@ -27,9 +27,12 @@ import (
 
 var out *bufio.Writer
 
+// emit writes one line and flushes it: the code under test may bring the process down from a
+// goroutine of its own, and what was observed before that must be on file.
 func emit(format string, args ...any) {
 	fmt.Fprintf(out, format, args...)
 	out.WriteByte('\n')
+	out.Flush()
 }
 
 func hx(s string) string { return hex.EncodeToString([]byte(s)) }
@@ -112,6 +115,8 @@ func TestTrace(t *testing.T) {
 		traceConcStore(t, o)
 	case "dbtime":
 		traceDBTime(t, o)
+	case "cadence":
+		traceCadence(t, o)
 	default:
 		t.Fatalf("unknown family %q", o.family)
 	}
